@@ -94,3 +94,7 @@ impl ZXMachine {
         }
     }
 }
+
+#[cfg(kani)]
+#[path = "/verif/hooks/core/machine.rs"]
+mod verif_hooks;
